@@ -131,6 +131,15 @@ def check(ctx):
         sv = lp.target.id if isinstance(lp.target, ast.Name) else None
         good_ret = (len(rets) == 1 and isinstance(rets[0].value, ast.Subscript) and isinstance(rets[0].value.value, ast.Name) and rets[0].value.value.id == sv
                     and isinstance(_nearest_if(rets[0]), ast.If) and S.unparse(_nearest_if(rets[0]).test) == f"{name} in {sv}")
+        if not good_ret and len(rets) == 1 and isinstance(rets[0].value, ast.Name) and isinstance(_nearest_if(rets[0]), ast.If):
+            # the same decision spelled with dict.get: `v = scope.get(name)` (no default, or None), `if v is not None: return v` - the scope tables
+            # only ever hold True / False (checked with the registration helpers below), so "present" and "not None" coincide
+            v_ = rets[0].value.id
+            binds_ = [a for a in ast.walk(lp) if isinstance(a, (ast.Assign, ast.NamedExpr)) and any(isinstance(t, ast.Name) and t.id == v_ for t in (a.targets if isinstance(a, ast.Assign) else [a.target]))]
+            getcall = binds_[0].value if len(binds_) == 1 else None
+            good_ret = (isinstance(getcall, ast.Call) and isinstance(getcall.func, ast.Attribute) and getcall.func.attr == "get" and isinstance(getcall.func.value, ast.Name) and getcall.func.value.id == sv
+                        and getcall.args and S.unparse(getcall.args[0]) == name and (len(getcall.args) == 1 or (isinstance(getcall.args[1], ast.Constant) and getcall.args[1].value is None))
+                        and S.unparse(_nearest_if(rets[0]).test) in (f"{v_} is not None", f"({v_} := {S.unparse(getcall)}) is not None"))
         tail = fn.body[-1]
         falls_false = isinstance(tail, ast.Return) and isinstance(tail.value, ast.Constant) and tail.value.value is False
         ok = rev and good_ret and falls_false
